@@ -1313,6 +1313,7 @@ impl<T: PPGEvaluatorStrategy> PPGEvaluator<T> {
     /// what a completed cascade guarantees relative to the state it started from
     spec fn cascade_post(&self, o: &Self) -> bool {
         &&& self.core()
+        &&& sig_posts(o.signals@, o.signals@.len() as int, self.jobs@)
         &&& self.signals@.len() == 0
         &&& jobs_step(o.jobs@, self.jobs@)
         &&& self.history@ == o.history@
@@ -1336,7 +1337,7 @@ proof fn lemma_arm_write(oldj: Seq<NodeInfo>, pre: Seq<NodeInfo>, post: Seq<Node
         is_rfc(pre[n].state) == is_rfc(post[n].state) ==> c1 =~= c0,
         is_rfc(pre[n].state) && !is_rfc(post[n].state) ==> c1 =~= c0.remove(pre[n].job_id),
         !is_rfc(pre[n].state) && is_rfc(post[n].state) ==> c1 =~= c0.insert(pre[n].job_id),
-    ensures core_ok(post, m, dag, r1, c1, fin), jobs_step(oldj, post), core_ok_x(post, m, dag, r1, c1, fin, -1),
+    ensures core_ok(post, m, dag, r1, c1, fin), jobs_step(oldj, post), jobs_step(pre, post), core_ok_x(post, m, dag, r1, c1, fin, -1),
 {
     lemma_core_x(post, m, dag, r1, c1, fin, -1);
     if x == -1 { lemma_core_x(pre, m, dag, r0, c0, fin, -1); lemma_core_x(pre, m, dag, r0, c0, fin, n); }
@@ -1350,7 +1351,7 @@ proof fn lemma_arm_soft(oldj: Seq<NodeInfo>, pre: Seq<NodeInfo>, post: Seq<NodeI
     requires
         jobs_step(oldj, pre), core_ok(pre, m, dag, r0, c0, fin), jobs_soft(pre, post),
         edges_in_range(dag2, pre.len()),
-    ensures core_ok(post, m, dag2, r0, c0, fin), jobs_step(oldj, post), core_ok_x(post, m, dag2, r0, c0, fin, -1),
+    ensures core_ok(post, m, dag2, r0, c0, fin), jobs_step(oldj, post), jobs_step(pre, post), core_ok_x(post, m, dag2, r0, c0, fin, -1),
 {
     lemma_core_x(post, m, dag2, r0, c0, fin, -1);
     lemma_soft_ok(pre, post, m, dag, r0, c0, fin);
@@ -1361,7 +1362,7 @@ proof fn lemma_arm_touch(oldj: Seq<NodeInfo>, pre: Seq<NodeInfo>, post: Seq<Node
     r0: Set<String>, c0: Set<String>, fin: bool)
     requires
         jobs_step(oldj, pre), core_ok(pre, m, dag, r0, c0, fin), jobs_touch(pre, post),
-    ensures core_ok(post, m, dag, r0, c0, fin), jobs_step(oldj, post), core_ok_x(post, m, dag, r0, c0, fin, -1),
+    ensures core_ok(post, m, dag, r0, c0, fin), jobs_step(oldj, post), jobs_step(pre, post), core_ok_x(post, m, dag, r0, c0, fin, -1),
 {
     lemma_core_x(post, m, dag, r0, c0, fin, -1);
     lemma_touch_is_soft(pre, post);
@@ -1374,7 +1375,7 @@ proof fn lemma_arm_cleanup(oldj: Seq<NodeInfo>, pre: Seq<NodeInfo>, post: Seq<No
         jobs_step(oldj, pre), core_ok(pre, m, dag, r0, c0, fin), cleanup_frame(pre, post),
         forall|i: int| 0 <= i < post.len() ==> (is_rfc(#[trigger] post[i].state) <==> c1.contains(post[i].job_id)),
         forall|k: String| #[trigger] c1.contains(k) ==> c0.contains(k) || exists|i: int| 0 <= i < pre.len() && #[trigger] pre[i].job_id == k,
-    ensures core_ok(post, m, dag, r0, c1, fin), jobs_step(oldj, post), core_ok_x(post, m, dag, r0, c1, fin, -1),
+    ensures core_ok(post, m, dag, r0, c1, fin), jobs_step(oldj, post), jobs_step(pre, post), core_ok_x(post, m, dag, r0, c1, fin, -1),
 {
     lemma_core_x(post, m, dag, r0, c1, fin, -1);
     lemma_cleanup_ok(pre, post, m, dag, r0, c0, c1, fin);
@@ -1406,5 +1407,94 @@ proof fn lemma_sigs_subset(a: Seq<Signal>, b: Seq<Signal>, n: nat)
     assert forall|k: int| 0 <= k < b.len() implies (#[trigger] b[k]).node_idx < n && b[k].kind != SignalKind::JobFinishedSuccess by {
         let q = choose|q: int| 0 <= q < a.len() && a[q] == b[k];
         assert(a[q].node_idx < n);
+    }
+}
+
+/// what the cascade guarantees about the job of an initially pending signal once that signal has been
+/// handled without an internal error (all four are stable under the lifecycle order)
+spec fn sig_post(s: Signal, jobs: Seq<NodeInfo>) -> bool {
+    let st = jobs[s.node_idx as int].state;
+    match s.kind {
+        SignalKind::JobAborted => finished(st),
+        SignalKind::JobFinishedFailure => is_exec_failure(st),
+        SignalKind::JobFinishedSuccess => ran_ok(st),
+        SignalKind::JobCleanedUp => st == JobState::Ephemeral(JobStateEphemeral::FinishedSuccessCleanedUp),
+        SignalKind::JobUpstreamFailure => upfailed(st),
+        _ => true,
+    }
+}
+
+spec fn sig_posts(sigs: Seq<Signal>, upto: int, jobs: Seq<NodeInfo>) -> bool {
+    forall|k: int| 0 <= k < upto ==> sig_post(#[trigger] sigs[k], jobs)
+}
+
+proof fn lemma_sig_posts_step(sigs: Seq<Signal>, upto: int, a: Seq<NodeInfo>, b: Seq<NodeInfo>)
+    requires sig_posts(sigs, upto, a), jobs_step(a, b), 0 <= upto <= sigs.len(),
+        forall|k: int| 0 <= k < sigs.len() ==> (#[trigger] sigs[k]).node_idx < a.len(),
+    ensures sig_posts(sigs, upto, b),
+{
+    assert forall|k: int| 0 <= k < upto implies sig_post(#[trigger] sigs[k], b) by {
+        let i = sigs[k].node_idx as int;
+        assert(sig_post(sigs[k], a));
+        assert(lc_le(a[i].state, b[i].state));
+        lemma_lc_consequences(a[i].state, b[i].state);
+    }
+}
+
+spec fn all_aborts(sigs: Seq<Signal>) -> bool {
+    forall|k: int| 0 <= k < sigs.len() ==> (#[trigger] sigs[k]).kind == SignalKind::JobAborted
+}
+
+// ---- public operations
+proof fn lemma_all_finished_nothing_ready(jobs: Seq<NodeInfo>, m: Map<String, usize>, ready: Set<String>)
+    requires ids_wf(jobs, m), ready_set_wf(jobs, ready, m),
+        forall|i: int| 0 <= i < jobs.len() ==> finished(#[trigger] jobs[i].state),
+    ensures ready =~= Set::<String>::empty(),
+        forall|i: int| 0 <= i < jobs.len() ==> !is_running(#[trigger] jobs[i].state) && !is_ready(jobs[i].state),
+{
+    assert forall|k: String| !ready.contains(k) by {
+        if ready.contains(k) {
+            assert(m.contains_key(k));
+            let i = m[k] as int;
+            assert(jobs[i].job_id == k);
+            assert(is_ready(jobs[i].state) <==> ready.contains(jobs[i].job_id));
+            assert(finished(jobs[i].state));
+        }
+    }
+}
+
+/// storing the reported output of a Running job (before its "finished successfully" signal is handled)
+proof fn lemma_set_output_ok(pre: Seq<NodeInfo>, post: Seq<NodeInfo>, m: Map<String, usize>, dag: &GraphType,
+    r0: Set<String>, c0: Set<String>, fin: bool, n: int)
+    requires core_ok(pre, m, dag, r0, c0, fin), one_changed(pre, post, n), post[n].state == pre[n].state,
+        is_running(pre[n].state), post[n].history_output is Some,
+    ensures core_ok_x(post, m, dag, r0, c0, fin, n), jobs_step(pre, post),
+{
+    lemma_ids_after_write(pre, post, m, n);
+    lemma_ready_set_after_write(pre, post, m, r0, r0, n);
+    lemma_cleanup_set_after_write(pre, post, m, c0, c0, n);
+    assert(out_wf_one(pre[n]));
+    lemma_lc_order(pre[n].state, pre[n].state, pre[n].state);
+    lemma_step_after_write(pre, post, n);
+    assert forall|i: int| 0 <= i < post.len() && i != n implies out_wf_one(#[trigger] post[i]) by {
+        assert(out_wf_one(pre[i]));
+    }
+    if fin {
+        assert forall|i: int| 0 <= i < post.len() implies finished(#[trigger] post[i].state) by {
+            assert(finished(pre[i].state));
+        }
+    }
+}
+
+spec fn uview(v: &Vec<usize>) -> Seq<usize> { v@ }
+
+impl<T: PPGEvaluatorStrategy> PPGEvaluator<T> {
+    /// C16: a validated Ephemeral (inputs unchanged) that was executed again reports an output the
+    /// configured comparison judges different from its recorded one
+    spec fn eph_changed(&self, i: int, new_output: Seq<char>) -> bool {
+        let j = self.jobs@[i];
+        &&& j.state == JobState::Ephemeral(JobStateEphemeral::Running(ValidationStatus::Validated))
+        &&& self.history@.contains_key(j.job_id)
+        &&& self.strategy.altered(j.job_id@, "!!!"@, self.history@[j.job_id]@, new_output)
     }
 }
